@@ -527,18 +527,20 @@ struct QfCtx { std::string form; uint64_t seed; Args a; };
 static std::string qf_f(void* c) { QfCtx* x = (QfCtx*) c; return qf_once(x->form, x->seed, x->a); }
 
 // ext <p> <e> <op> <seed> <n> [s]     Extension<GFqDom<int64_t>>: random(g,r) | random(g,r,s) | nonzerorandom(g,r) | nonzerorandom(g,r,s)
-//                                     | iter: GIV_ExtensionrandIter(F, size = s, seed), forms random(elt) / operator()(elt)
+//                                     | iter: GIV_ExtensionrandIter(F, seed, size = s), forms random(elt) / operator()(elt)
 //   prints per element  "[c0 c1 ...]" (exponents of the base field) and "| state" for the GivRandom forms
-static std::string ext_once(uint64_t p, uint64_t e, const std::string& op, uint64_t seed, int n, int64_t s) {
+//   k > 1: the extension of degree e is built over the BASE FIELD GF(p^k) (constructor Extension(baseField, e)): base cardinality p^k > characteristic
+static std::string ext_once(uint64_t p, uint64_t e, const std::string& op, uint64_t seed, int n, int64_t s, uint64_t k) {
     typedef Extension<GFqDom<int64_t> > Ext;
-    static std::map<std::pair<uint64_t, uint64_t>, std::unique_ptr<Ext> > cache;      // building the extension searches an irreducible polynomial
-    std::unique_ptr<Ext>& slot = cache[std::make_pair(p, e)];
-    if (!slot) slot.reset(new Ext((Ext::Residu_t) p, (Ext::Residu_t) e));
+    static std::map<std::pair<uint64_t, std::pair<uint64_t, uint64_t> >, std::unique_ptr<Ext> > cache;      // building the extension searches an irreducible polynomial
+    std::unique_ptr<Ext>& slot = cache[std::make_pair(p, std::make_pair(e, k))];
+    if (!slot) { if (k > 1) { GFqDom<int64_t> B((GFqDom<int64_t>::Residu_t) p, (GFqDom<int64_t>::Residu_t) k); slot.reset(new Ext(B, (Ext::Residu_t) e)); } else slot.reset(new Ext((Ext::Residu_t) p, (Ext::Residu_t) e)); }
     const Ext& F = *slot;
+    const uint64_t bcard = (uint64_t) F.base_field().cardinality();
     std::ostringstream o;
     o << F.order() << " " << F.characteristic();
     GivRandom g(seed);
-    GIV_ExtensionrandIter<Ext, Integer> it(F, Integer(s), Integer(seed));
+    GIV_ExtensionrandIter<Ext, Integer> it(F, Integer(seed), Integer(s));        // (field, SEED, SIZE) like every other random iterator (c502f80)
     GIV_ExtensionrandIter<Ext, Integer> cp(it);
     // ONE destination for all n draws, preset to more coefficients than any draw asks for; the sized forms ask for
     // s, 1, s, s+1, s, 1, ... coefficients in turn (sizes going down and up on the same element)
@@ -555,7 +557,7 @@ static std::string ext_once(uint64_t p, uint64_t e, const std::string& op, uint6
         else return "UNKNOWN-OP";
         o << " [";
         for (size_t j = 0; j < r.size(); ++j) {
-            if (op == "iter") { int64_t v = -1; if (r[j] >= 0 && (uint64_t) r[j] < p) F.base_field().convert(v, r[j]); o << (j ? " " : "") << (long long) v; }   // value
+            if (op == "iter") { int64_t v = -1; if (r[j] >= 0 && (uint64_t) r[j] < bcard) F.base_field().convert(v, r[j]); o << (j ? " " : "") << (long long) v; }   // value
             else o << (j ? " " : "") << (long long) r[j];                                                       // exponent
         }
         o << "]";
@@ -642,8 +644,8 @@ static std::string gf2ref_once(const std::string& op, uint64_t seed, int n) {
     o << "| " << g.seed();
     return o.str();
 }
-struct ExtCtx { uint64_t p, e; std::string op; uint64_t seed; int n; int64_t s; };
-static std::string ext_f(void* c) { ExtCtx* x = (ExtCtx*) c; return ext_once(x->p, x->e, x->op, x->seed, x->n, x->s); }
+struct ExtCtx { uint64_t p, e; std::string op; uint64_t seed; int n; int64_t s; uint64_t k; };
+static std::string ext_f(void* c) { ExtCtx* x = (ExtCtx*) c; return ext_once(x->p, x->e, x->op, x->seed, x->n, x->s, x->k); }
 
 // ---------------------------------------------------------------- Part C: Integer range constructions
 // destinations are never fresh: preset 0 = -77, 1 = 2^200+12345 (four limbs), 2 = -(2^130+7), 3 = 0
@@ -971,7 +973,7 @@ static std::string dispatch(const std::string& kind, const Args& a) {
     }
     if (kind == "ext") {
         if (a.size() < 5) return "BAD-LINE";
-        ExtCtx c; c.p = pu64(a[0]); c.e = pu64(a[1]); c.op = a[2]; c.seed = pu64(a[3]); c.n = atoi(a[4].c_str()); c.s = a.size() > 5 ? pi64(a[5]) : 0;
+        ExtCtx c; c.p = pu64(a[0]); c.e = pu64(a[1]); c.op = a[2]; c.seed = pu64(a[3]); c.n = atoi(a[4].c_str()); c.s = a.size() > 5 ? pi64(a[5]) : 0; c.k = a.size() > 6 ? pu64(a[6]) : 1;
         return twice(ext_f, &c);
     }
     if (kind == "rii") {
